@@ -14,16 +14,40 @@ import (
 // Source-level facts about the krt collections, regenerated from the working tree on every run
 // (T-gen): every call of `eventHandlers.Insert` (a subscriber is added, with the snapshot of the
 // current contents as its initial events) and of `eventHandlers.Distribute` (a batch of events is
-// delivered) in collection.go, static.go, join.go, mergejoin.go, nestedjoinmerge.go happens while the
-// collection's own lock `<recv>.mu`, taken earlier in the same function, is still held.  This is the
-// atomicity assumption of `late_subscriber_accepted` / `reg_atomic_accepted` (Registration.lean): no
-// batch can be applied between the snapshot and the insertion of the handler.
+// delivered) in collection.go, static.go, join.go, mergejoin.go, nestedjoinmerge.go happens
+//
+//   - locked:   while the collection's own lock `<recv>.mu`, taken earlier in the same function, is held,
+//   - oneSpan:  and that critical section is the only one the function has opened on the path to the call
+//     (no Unlock / RUnlock followed by a second Lock / RLock: the state the events were computed from
+//     cannot have changed),
+//   - snapshot: for an Insert with initial events: the function reads the collection state
+//     (`collectionState.outputs`, `processedState`, `vals`, `outputs`) inside that same critical section
+//     and nowhere else before the call ("same-span"; "other-span": also read outside it; "no-read":
+//     the snapshot comes from somewhere the extractor cannot see; "nil": no initial events).
+//
+// This is the atomicity assumption of `late_subscriber_accepted` / `reg_atomic_accepted`
+// (Registration.lean): no batch can be applied between the snapshot and the insertion of the handler.
 //
 //	c16 table regfacts <out.lean>
 
 type regFact struct {
 	file, recv, method, callee string
-	locked                     bool
+	locked, oneSpan            bool
+	snapshot                   string
+}
+
+// lockState: the critical section the walker is in (0: none) and how many this path has opened.
+type lockState struct{ span, opened int }
+
+func mergeLock(a, b lockState) lockState {
+	if a == b {
+		return a
+	}
+	m := lockState{0, a.opened}
+	if b.opened > m.opened {
+		m.opened = b.opened
+	}
+	return m
 }
 
 type lockWalker struct {
@@ -31,7 +55,11 @@ type lockWalker struct {
 	file   string
 	recv   string
 	method string
+	nspan  int   // critical sections numbered so far in this function
+	reads  []int // the critical section (0: none) of every read of the collection state so far
 }
+
+var stateSuffixes = []string{".outputs", ".processedState", ".vals"}
 
 // selectorPath renders a.b.c for nested selector expressions ("" if not a pure path).
 func selectorPath(e ast.Expr) string {
@@ -62,21 +90,58 @@ func muCall(e ast.Expr) (string, bool) {
 	return "", false
 }
 
-// scanCalls records the Insert / Distribute calls inside an expression or simple statement.
-func (w *lockWalker) scanCalls(n ast.Node, locked bool) {
+func (w *lockWalker) snapshotOf(c *ast.CallExpr, st lockState) string {
+	if len(c.Args) >= 3 {
+		if id, ok := c.Args[2].(*ast.Ident); ok && id.Name == "nil" {
+			return "nil"
+		}
+	}
+	same, other := false, false
+	for _, sp := range w.reads {
+		if sp != 0 && sp == st.span {
+			same = true
+		} else {
+			other = true
+		}
+	}
+	switch {
+	case other:
+		return "other-span"
+	case same:
+		return "same-span"
+	}
+	return "no-read"
+}
+
+// scanCalls records the Insert / Distribute calls and the reads of the collection state inside an
+// expression or simple statement.
+func (w *lockWalker) scanCalls(n ast.Node, st lockState) {
 	if n == nil {
 		return
 	}
 	ast.Inspect(n, func(x ast.Node) bool {
 		switch c := x.(type) {
 		case *ast.FuncLit:
-			// a closure runs later, on its own: whatever it calls is not under this function's lock
-			w.block(c.Body.List, false)
+			// a closure runs later, on its own: whatever it does is not under this function's lock
+			w.block(c.Body.List, lockState{0, st.opened})
 			return false
+		case *ast.SelectorExpr:
+			p := selectorPath(c)
+			for _, suf := range stateSuffixes {
+				if strings.HasSuffix(p, suf) {
+					w.reads = append(w.reads, st.span)
+				}
+			}
 		case *ast.CallExpr:
 			p := selectorPath(c.Fun)
-			if strings.HasSuffix(p, ".eventHandlers.Insert") || strings.HasSuffix(p, ".eventHandlers.Distribute") {
-				*w.facts = append(*w.facts, regFact{w.file, w.recv, w.method, p[strings.LastIndex(p, ".")+1:], locked})
+			isInsert := strings.HasSuffix(p, ".eventHandlers.Insert")
+			if isInsert || strings.HasSuffix(p, ".eventHandlers.Distribute") {
+				snap := "-"
+				if isInsert {
+					snap = w.snapshotOf(c, st)
+				}
+				*w.facts = append(*w.facts, regFact{w.file, w.recv, w.method, p[strings.LastIndex(p, ".")+1:],
+					st.span != 0, st.span != 0 && st.opened == 1, snap})
 			}
 		}
 		return true
@@ -92,16 +157,17 @@ func endsWithReturn(l []ast.Stmt) bool {
 }
 
 // block walks a statement list with the lock state at its start and returns the state at its end.
-func (w *lockWalker) block(l []ast.Stmt, locked bool) bool {
+func (w *lockWalker) block(l []ast.Stmt, locked lockState) lockState {
 	for _, s := range l {
 		switch st := s.(type) {
 		case *ast.ExprStmt:
 			if name, ok := muCall(st.X); ok {
 				switch name {
 				case "Lock", "RLock":
-					locked = true
+					w.nspan++
+					locked = lockState{w.nspan, locked.opened + 1}
 				case "Unlock", "RUnlock":
-					locked = false
+					locked.span = 0
 				}
 				continue
 			}
@@ -110,19 +176,22 @@ func (w *lockWalker) block(l []ast.Stmt, locked bool) bool {
 			if _, ok := muCall(st.Call); ok {
 				continue // deferred unlock: the lock is held until the function returns
 			}
-			w.scanCalls(st.Call, false)
+			w.scanCalls(st.Call, lockState{0, locked.opened})
 		case *ast.GoStmt:
-			w.scanCalls(st.Call, false)
+			w.scanCalls(st.Call, lockState{0, locked.opened})
 		case *ast.IfStmt:
 			w.scanCalls(st.Init, locked)
 			w.scanCalls(st.Cond, locked)
+			nreads := len(w.reads)
 			after := w.block(st.Body.List, locked)
 			merged := locked
 			if !endsWithReturn(st.Body.List) {
-				merged = merged && after
+				merged = mergeLock(merged, after)
+			} else {
+				w.reads = w.reads[:nreads] // a branch that returns: its reads are not on the path that goes on
 			}
 			if st.Else != nil {
-				var ea bool
+				var ea lockState
 				var ret bool
 				switch e := st.Else.(type) {
 				case *ast.BlockStmt:
@@ -132,28 +201,28 @@ func (w *lockWalker) block(l []ast.Stmt, locked bool) bool {
 					ea = w.block([]ast.Stmt{e}, locked)
 				}
 				if !ret {
-					merged = merged && ea
+					merged = mergeLock(merged, ea)
 				}
 			}
 			locked = merged
 		case *ast.ForStmt:
-			locked = locked && w.block(st.Body.List, locked)
+			locked = mergeLock(locked, w.block(st.Body.List, locked))
 		case *ast.RangeStmt:
 			w.scanCalls(st.X, locked)
-			locked = locked && w.block(st.Body.List, locked)
+			locked = mergeLock(locked, w.block(st.Body.List, locked))
 		case *ast.BlockStmt:
 			locked = w.block(st.List, locked)
 		case *ast.SwitchStmt:
 			for _, c := range st.Body.List {
-				locked = locked && w.block(c.(*ast.CaseClause).Body, locked)
+				locked = mergeLock(locked, w.block(c.(*ast.CaseClause).Body, locked))
 			}
 		case *ast.TypeSwitchStmt:
 			for _, c := range st.Body.List {
-				locked = locked && w.block(c.(*ast.CaseClause).Body, locked)
+				locked = mergeLock(locked, w.block(c.(*ast.CaseClause).Body, locked))
 			}
 		case *ast.SelectStmt:
 			for _, c := range st.Body.List {
-				locked = locked && w.block(c.(*ast.CommClause).Body, locked)
+				locked = mergeLock(locked, w.block(c.(*ast.CommClause).Body, locked))
 			}
 		default:
 			w.scanCalls(s, locked)
@@ -191,7 +260,7 @@ func regFacts(repo string) []regFact {
 		fset := token.NewFileSet()
 		file, err := parser.ParseFile(fset, filepath.Join(repo, "pkg/kube/krt", f), nil, 0)
 		if err != nil {
-			facts = append(facts, regFact{f, "parse-error", "-", "-", false})
+			facts = append(facts, regFact{f, "parse-error", "-", "-", false, false, "-"})
 			continue
 		}
 		for _, d := range file.Decls {
@@ -200,7 +269,7 @@ func regFacts(repo string) []regFact {
 				continue
 			}
 			w := &lockWalker{facts: &facts, file: f, recv: recvName(fd), method: fd.Name.Name}
-			w.block(fd.Body.List, false)
+			w.block(fd.Body.List, lockState{})
 		}
 	}
 	sort.Slice(facts, func(a, b int) bool {
@@ -219,14 +288,15 @@ func writeRegFacts(out string) {
 	var b strings.Builder
 	b.WriteString("/- generated by `c16 table regfacts` from " + "pkg/kube/krt of the checked tree; do not edit -/\n")
 	b.WriteString("namespace IstioModel.Generated.C16\n\n")
-	b.WriteString("/-- (file, receiver.method, callee, called while the collection lock taken in the function is held) -/\n")
-	b.WriteString("def regFacts : List (String × String × String × Bool) := [\n")
+	b.WriteString("/-- (file, receiver.method, callee, called while the collection lock taken in the function is held,\n")
+	b.WriteString("    that critical section is the only one opened on the path to the call, where the snapshot is read) -/\n")
+	b.WriteString("def regFacts : List (String × String × String × Bool × Bool × String) := [\n")
 	for i, f := range facts {
 		sep := ","
 		if i == len(facts)-1 {
 			sep = ""
 		}
-		fmt.Fprintf(&b, "  (%q, %q, %q, %v)%s\n", f.file, f.recv+"."+f.method, f.callee, f.locked, sep)
+		fmt.Fprintf(&b, "  (%q, %q, %q, %v, %v, %q)%s\n", f.file, f.recv+"."+f.method, f.callee, f.locked, f.oneSpan, f.snapshot, sep)
 	}
 	b.WriteString("]\n\nend IstioModel.Generated.C16\n")
 	if err := os.WriteFile(out, []byte(b.String()), 0o644); err != nil {
